@@ -1,3 +1,5 @@
+//go:build !passthrough
+
 // Package simos is an API-compatible replacement of the parts of package os the
 // store uses, backed by an in-memory file system owned by the simrt scheduler.
 // Every call is a yield point, an op-log entry and a fault point.
